@@ -47,7 +47,7 @@ PROPS["C06"] = {
     "level_note": "Trusted: Lean kernel; factgen constant extraction; the hand transcription of filter.go and of the four loop bodies (tied by "
                   "differential testing only); Go's strings.HasPrefix/EqualFold/strconv.Atoi/FormatInt as modelled; KeyToSlot is a parameter (C15); "
                   "multi-key commands and commands without a key-table row belong to C13.",
-    "rule": "unit: per generated configuration (black/white/both/neither key lists incl. empty prefix, prefixes of `lua` and of the checkpoint key; "
+    "rule": "(slots in the case lines and slot lists come from the external redis-go-cluster GetSlot, not from the tool; keys include brace arrangements of the hash-tag rule.) unit: per generated configuration (black/white/both/neither key lists incl. empty prefix, prefixes of `lua` and of the checkpoint key; "
             "db lists with canonical and non-canonical numerals; slot lists of Atoi-valid entries hitting the slots of tried keys; lua on/off) 16 keys "
             "probing every listed prefix from all sides (equal, extended, proper prefix, last byte altered, contained-not-prefix, hash tags, empty key, "
             "arbitrary bytes, checkpoint key and near misses) x db numbers (0..16, negative, > 2^31) x command names (every letter case, near misses); "
